@@ -183,6 +183,8 @@ fn mats() -> Vec<Matrix4<f32>> {
         Matrix4::new(0.8, 0.0, 0.0, 0.1, 0.0, 0.8, 0.0, -0.05, 0.0, 0.0, 0.8, 0.0, 0.0, 0.0, 0.0, 1.0),
         // rotation about x by ~30 degrees with a shift
         Matrix4::new(1.0, 0.0, 0.0, 0.0, 0.0, 0.866, -0.5, 0.1, 0.0, 0.5, 0.866, -0.1, 0.0, 0.0, 0.0, 1.0),
+        // shear with a non-uniform scale: the linear part of cfg.mat() is not symmetric (a rotation times the y-flip of the screen is)
+        Matrix4::new(0.9, 0.3, 0.0, 0.05, -0.2, 1.05, 0.1, 0.0, 0.0, -0.15, 0.95, 0.02, 0.0, 0.0, 0.0, 1.0),
     ]
 }
 
@@ -225,7 +227,7 @@ pub fn render3d(thorough: bool) -> Report {
     let mut r = Report::new("render3d");
     run_all(&mut r, thorough, None);
     r.distinct = r.cases;
-    r.space = "6 shapes (sphere; a beam across the top rows that extends past the image edge over a floor only visible in a lower slab; two spheres stacked along z plus a thin slab: several objects per pixel column; a box with a hole and a tilted cut; a wavy ground that fills whole tiles; a ceiling that is inside up to and beyond the top of the grid) x grid sizes incl. width != height != depth, non-multiples of the root tile and 1x1x5 x tile-size lists {default, [8], [16,4], [32,8,2], [12,6,3], [16,8,4,1]} x 3 view transforms (identity, scale+shift, rotation about x) x {VM, JIT} x {no thread pool, rayon}; every pixel column compared with Context::eval at cfg.mat() * (i, j, k) for every k: depth = highest inside voxel + 1 (band of 2e-5 relative around zero counts either way; columns inside between the top of the grid and the top of the last root-tile slab are skipped, as the property says), normals of unclamped surface pixels against the VM gradient evaluation of the original shape at that voxel".into();
+    r.space = "6 shapes (sphere; a beam across the top rows that extends past the image edge over a floor only visible in a lower slab; two spheres stacked along z plus a thin slab: several objects per pixel column; a box with a hole and a tilted cut; a wavy ground that fills whole tiles; a ceiling that is inside up to and beyond the top of the grid) x grid sizes incl. width != height != depth, non-multiples of the root tile and 1x1x5 x tile-size lists {default, [8], [16,4], [32,8,2], [12,6,3], [16,8,4,1]} x 4 view transforms (identity, scale+shift, rotation about x, shear with non-uniform scale) x {VM, JIT} x {no thread pool, rayon}; every pixel column compared with Context::eval at cfg.mat() * (i, j, k) for every k: depth = highest inside voxel + 1 (band of 2e-5 relative around zero counts either way; columns inside between the top of the grid and the top of the last root-tile slab are skipped, as the property says), normals of unclamped surface pixels against the VM gradient evaluation of the original shape at that voxel".into();
     r
 }
 
